@@ -11,8 +11,10 @@ use async_trait::async_trait;
 use bytes::Bytes;
 use futures::{Sink, SinkExt};
 use selium_protocol::utils::encode_message_batch;
-use selium_protocol::{BiStream, Frame, MessagePayload, PublisherPayload, TopicName};
-use selium_std::errors::{CodecError, Result, SeliumError};
+use selium_protocol::{
+    BiStream, Frame, MessagePayload, PublisherPayload, TopicName, MAX_MESSAGE_SIZE,
+};
+use selium_std::errors::{CodecError, ProtocolError, Result, SeliumError};
 use selium_std::traits::codec::MessageEncoder;
 use selium_std::traits::compression::Compress;
 use std::marker::PhantomData;
@@ -21,6 +23,17 @@ use std::sync::Arc;
 use std::task::{Context, Poll};
 use std::time::Instant;
 use tokio::sync::MutexGuard;
+
+const LEN_MARKER_SIZE: usize = std::mem::size_of::<u64>();
+// Headroom below the frame limit for compressors that slightly expand incompressible data
+const MAX_BATCH_SIZE: usize = (MAX_MESSAGE_SIZE - MAX_MESSAGE_SIZE / 64) as usize;
+
+fn batch_now() -> Instant {
+    #[cfg(not(selium_verif))]
+    return Instant::now();
+    #[cfg(selium_verif)]
+    return crate::verif::now();
+}
 
 impl StreamBuilder<PublisherWantsEncoder> {
     /// Specifies the encoder a [Publisher] uses for encoding produced messages prior to being
@@ -309,8 +322,24 @@ where
             .encode(item)
             .map_err(CodecError::EncodeFailure)?;
 
-        if let Some(batch) = self.batch.as_mut() {
-            batch.push(bytes);
+        if let Some(batch) = self.batch.as_ref() {
+            // A batch travels in a single frame. Frame what has been collected so far when this
+            // message would make the batch outgrow the frame limit; refuse a message that could
+            // not travel even on its own, instead of dropping the whole batch later.
+            let message_len = bytes.len() + LEN_MARKER_SIZE;
+
+            if LEN_MARKER_SIZE + message_len > MAX_BATCH_SIZE {
+                return Err(ProtocolError::PayloadTooLarge(
+                    (LEN_MARKER_SIZE + message_len) as u64,
+                    MAX_BATCH_SIZE as u64,
+                ))?;
+            }
+
+            if !batch.is_empty() && batch.encoded_len() + message_len > MAX_BATCH_SIZE {
+                self.send_batch(batch_now())?;
+            }
+
+            self.batch.as_mut().unwrap().push(bytes);
             Ok(())
         } else {
             self.send_single(bytes)
